@@ -183,7 +183,10 @@ Definition fnormalize (B sig ex : Z) : Z * Z :=
   if sig =? 0 then (0, 0) else fnormalize_fuel (Z.to_nat (Z.log2 (Z.abs sig) + 1)) B sig ex.
 
 (** ** ErrorBounds::error_bounds per mode: (L, R, incl_l, incl_r) as fractions; the half ulp of
-    the two Half modes is ceil(B/2) * B^(e-1) as in the source *)
+    the two Half modes is ceil(B/2) * B^(e-1) as in the source.  [sig] is the stored (normalised,
+    non-zero) significand, [dg] its digit count, [p] the precision (0 = unlimited).
+    State of the source after the repairs of findings F05 (HalfEven: parity of the significand of
+    full precision) and F08 (Away/Up/Down: unlimited precision returns (0, 0, true, true)). *)
 Definition error_bounds_asis (B : Z) (md : mode) (p sig ex : Z) : result (frac * frac * bool * bool) :=
   let zero : frac := (0, 1) in
   let dg := ndigits B (Z.abs sig) in
@@ -196,22 +199,35 @@ Definition error_bounds_asis (B : Z) (md : mode) (p sig ex : Z) : result (frac *
       if p =? 0 then Ok (zero, zero, true, true)
       else if neg then Ok (ulp, zero, false, true) else Ok (zero, ulp, true, false)
   | MAway =>
-      if p =? 0 then Panic UnlimitedPrecision        (* f.ulp() *)
+      if p =? 0 then Ok (zero, zero, true, true)
       else if neg then Ok (zero, ulp, true, false) else Ok (ulp, zero, false, true)
-  | MDown => if p =? 0 then Panic UnlimitedPrecision else Ok (zero, ulp, true, false)
-  | MUp => if p =? 0 then Panic UnlimitedPrecision else Ok (ulp, zero, false, true)
+  | MDown => if p =? 0 then Ok (zero, zero, true, true) else Ok (zero, ulp, true, false)
+  | MUp => if p =? 0 then Ok (zero, zero, true, true) else Ok (ulp, zero, false, true)
   | MHalfAway =>
       if p =? 0 then Ok (zero, zero, true, true)
       else if neg then Ok (half, half, false, true) else Ok (half, half, true, false)
   | MHalfEven =>
       if p =? 0 then Ok (zero, zero, true, true)
-      else let incl := Z.odd sig in Ok (half, half, incl, incl)
+      else let incl := negb (Z.odd sig) || ((B mod 2 =? 0) && (dg <? p)) in Ok (half, half, incl, incl)
   end.
 
-Definition simplest_from_float_asis (B : Z) (md : mode) (p sig0 ex0 : Z) : result (option frac) :=
+(** the pinned (pre-repair) bodies, kept to state the refutations of findings F05 and F08:
+    Away/Up/Down call f.ulp() at unlimited precision, HalfEven tests bit 0 of the stored significand *)
+Definition error_bounds_pinned (B : Z) (md : mode) (p sig ex : Z) : result (frac * frac * bool * bool) :=
+  match md with
+  | MAway | MDown | MUp => if p =? 0 then Panic UnlimitedPrecision else error_bounds_asis B md p sig ex
+  | MHalfEven =>
+      if p =? 0 then error_bounds_asis B md p sig ex
+      else let half := scaled B ((B + 1) / 2) (ex + ndigits B (Z.abs sig) - p - 1) 1 in
+           Ok (half, half, Z.odd sig, Z.odd sig)
+  | _ => error_bounds_asis B md p sig ex
+  end.
+
+Definition simplest_from_float_with (eb : Z -> mode -> Z -> Z -> Z -> result (frac * frac * bool * bool))
+    (B : Z) (md : mode) (p sig0 ex0 : Z) : result (option frac) :=
   let '(sig, ex) := fnormalize B sig0 ex0 in
   if sig =? 0 then Ok (Some (0, 1))
-  else match error_bounds_asis B md p sig ex with
+  else match eb B md p sig ex with
        | Ok (l, r, incl_l, incl_r) =>
            let v := scaled B sig ex 1 in
            let lf := freduce (fsub v l) in
@@ -225,3 +241,6 @@ Definition simplest_from_float_asis (B : Z) (md : mode) (p sig0 ex0 : Z) : resul
            end
        | Panic e => Panic e | Err e => Err e | OutOfFuel => OutOfFuel
        end.
+
+Definition simplest_from_float_asis := simplest_from_float_with error_bounds_asis.
+Definition simplest_from_float_pinned := simplest_from_float_with error_bounds_pinned.
